@@ -7,4 +7,6 @@ python3 tools/gen_tables.py
 (cd lean && lake build)
 [ -f harness/Cargo.lock ] || cp /repo/Cargo.lock harness/Cargo.lock
 (cd harness && cargo build --release --offline)
+[ -f harness-default/Cargo.lock ] || cp /repo/Cargo.lock harness-default/Cargo.lock
+(cd harness-default && cargo build --release --offline)
 echo setup-ok
